@@ -26,6 +26,9 @@ def run(ctx):
     if RP.strict_posting_assertion(ctx):
         RT.generator_sorted_dedup(ctx, "R01.g")
     RS.consistency_group(ctx, "R01.g", include_memo=False, frame=False)
+    RS.length_lockstep(ctx, "R01.g")
+    from . import C20 as RC20
+    RC20.registry_panic_polarity(ctx, "R01.e")
     # unchecked accesses abort in a checked build (debug preconditions) and are UB otherwise
     R19.discharge_sites(ctx)
     # geometry of derived matches: a wrong length of a split half / joined word is an out-of-range slice later on
